@@ -155,3 +155,19 @@ func (fr *Frame) EdgeGuard(p, b int) *Term {
 	}
 	return r
 }
+
+// EquivalentReach returns the reach condition of the top-most block that block b is control-equivalent to (b
+// post-dominates it and it dominates b, loops terminating): the condition under which b is executed, free of the
+// exit conditions of the loops that lie in between.
+func (fr *Frame) EquivalentReach(b int) *Term {
+	blk := fr.Fn.Blocks[b]
+	best := blk
+	for {
+		d := fr.controlEquivalentDominator(best)
+		if d == nil {
+			break
+		}
+		best = d
+	}
+	return fr.reach[best.Index]
+}
